@@ -359,7 +359,7 @@ def make_memo_cases(rng, n):
     result must be that of a Behavior built afresh with the new parameters (the spectral
     decomposition is a memo keyed by C), and changing them back must give the first result again."""
     out = []
-    for i in range(n):
+    for i in range(n + max(3, n // 2)):
         yk = ["VonMises", "Hill"][i % 2]
         hk = ["Linear", "Voce", "none", "Swift"][i % 4]
         rk = "none" if i % 3 else "Norton1"
@@ -378,9 +378,18 @@ def make_memo_cases(rng, n):
         else:
             cfg["elastic2"] = {"kind": "iso", "E": E0 * (1 + float(kind[3:])), "v": v0}
         cfg["change_kind"] = kind
+        # every public way of changing the law: parameter setters (first n cases), then
+        # `law.C = ...`, Set_C(update_S=False) and Set_C(update_S=True) on an Anisotropic law
+        cfg["law_change"] = "params"
+        if i >= n:
+            cfg["law_change"] = ["C-setter", "Set_C-noS", "Set_C"][i % 3]
+            if kind in ("ulp", "v-rel1e-7"):
+                kind = cfg["change_kind"] = "large"
+                cfg["elastic2"] = {"kind": "iso", "E": float("%.4g" % (E0 * 0.6)), "v": float("%.2f" % min(0.45, v0 + 0.08))}
+            cfg["solver"] = "auto"
         d = unit_dir(rng, nn)
         cfg["eps"] = [[cfg["eps_y"] * a * x for x in d] for a in (0.4, 2.5, 5.0)]
-        cfg["id"] = "memo%02d-%s-%s-%s-%s-%s-%s" % (i, yk, hk, rk, mode, cfg["solver"], kind)
+        cfg["id"] = "memo%02d-%s-%s-%s-%s-%s-%s-%s" % (i, yk, hk, rk, mode, cfg["solver"], kind, cfg["law_change"])
         cfg["combo"] = [yk, hk, "none", rk, 0, mode, "iso"]
         out.append(cfg)
     return out
@@ -407,7 +416,24 @@ def scale_units(cfg, s):
     return c
 
 
+def scale_time(cfg, sT):
+    """The same material and loading history in other TIME units: dt, relaxation times and Perzyna's
+    viscosity times sT, Norton's fluidity A divided by sT."""
+    import copy
+    c = copy.deepcopy(cfg)
+    c["dt"] = c.get("dt", 0.0) * sT
+    if c.get("rate"):
+        if c["rate"]["kind"] == "Norton":
+            c["rate"]["A"] = c["rate"]["A"] / sT
+        else:
+            c["rate"]["eta"] = c["rate"]["eta"] * sT
+    if c.get("branches"):
+        c["branches"] = [[g, tau * sT] for g, tau in c["branches"]]
+    return c
+
+
 UNIT_SCALES = [1e-3, 1e-6, 1e4]
+TIME_SCALES = [1e-9, 1e3]
 
 
 def make_unit_cases(rng, n):
@@ -435,5 +461,12 @@ def make_unit_cases(rng, n):
             c["unit_scale"] = s
             c["id"] = "unit%02d-s%g-%s" % (i, s, "/".join(str(x) for x in cfg["combo"]))
             members.append(c)
+        if cfg.get("rate") or cfg.get("branches"):
+            for sT in TIME_SCALES:        # time twins: same stresses (unit_scale = 1)
+                c = scale_time(cfg, sT)
+                c["unit_scale"] = 1.0
+                c["time_scale"] = sT
+                c["id"] = "unit%02d-t%g-%s" % (i, sT, "/".join(str(x) for x in cfg["combo"]))
+                members.append(c)
         groups.append(members)
     return groups
